@@ -202,8 +202,19 @@ async def run_flow(env, server, acc, scheme, cid, cfg, db_json, recreate_mask, r
                                             f"{[STEPS[i + 1] for i, b in enumerate(recreate_mask) if b]}, server restart "
                                             f"{restart_at})", case)
     try:
+        loop = asyncio.get_running_loop()
+
+        async def maybe_idle(rec):
+            # the user keeps the client object and pauses (35 s or 2 minutes of idle time on the event loop's clock:
+            # keep-alive pings fire and are answered) before the next step
+            if not rec and flow.svc is not None and hasattr(loop, "warp") and rng.random() < 0.3:
+                for _ in range(rng.choice([1, 1, 3])):
+                    loop.warp(35.0)
+                    await asyncio.sleep(0.03)
+                acc.count("idle_pauses_before_a_step")
         for i, name in enumerate(STEPS[:5]):
             rec = bool(recreate_mask[i - 1]) if i > 0 else True
+            await maybe_idle(rec)
             try:
                 r = await flow.step(name, rec)
             except Exception as e:
@@ -224,6 +235,7 @@ async def run_flow(env, server, acc, scheme, cid, cfg, db_json, recreate_mask, r
                 await server.restart()
                 acc.count("server_restarts")
                 rec = True
+            await maybe_idle(rec)
             try:
                 r = await flow.step("search", rec, keyword=w)
             except Exception as e:
@@ -570,7 +582,7 @@ def real_processes(spec, acc, ctx):
 def run_shard(spec, acc, ctx):
     k = spec["kind"]
     if k == "flows":
-        asyncio.run(flows(spec, acc, ctx))
+        wh.run_warped(lambda: flows(spec, acc, ctx))
     elif k == "commands":
         asyncio.run(commands_layer(spec, acc, ctx))
     elif k == "big":
